@@ -141,11 +141,11 @@ class SQLiteBuilder(SQLBuilder):
     def DATE_ADD(builder, expr, delta):
         if delta[0] == 'VALUE' and isinstance(delta[1], datetime.timedelta):
             return builder.datetime_add('date', expr, delta[1])
-        return 'datetime(julianday(', builder(expr), ') + ', builder(delta), ')'
+        return 'date(julianday(', builder(expr), ') + ', builder(delta), ')'
     def DATE_SUB(builder, expr, delta):
         if delta[0] == 'VALUE' and isinstance(delta[1], datetime.timedelta):
             return builder.datetime_add('date', expr, -delta[1])
-        return 'datetime(julianday(', builder(expr), ') - ', builder(delta), ')'
+        return 'date(julianday(', builder(expr), ') - ', builder(delta), ')'
     def DATE_DIFF(builder, expr1, expr2):
         return 'julianday(', builder(expr1), ') - julianday(', builder(expr2), ')'
     def DATETIME_ADD(builder, expr, delta):
